@@ -597,6 +597,16 @@ class SQLDataStore(datastore.DataStore):
     sq = sqla.select(self._studies_table)
     sq = sq.where(self._studies_table.c.study_name == study_name)
 
+    # Split the trial-related metadata by Trial. Resolving the trial names
+    # validates the trial ids (ValueError) before anything is written.
+    split_metadata = collections.defaultdict(list)
+    for md in trial_metadata:
+      split_metadata[md.trial_id].append(md)
+    trial_names = {
+        trial_id: s_resource.trial_resource(trial_id).name
+        for trial_id in split_metadata
+    }
+
     with self._lock:
       row = self._connection.execute(sq).fetchone()
       if not row:
@@ -613,15 +623,9 @@ class SQLDataStore(datastore.DataStore):
       usq = usq.values(serialized_study=original_study.SerializeToString())
       self._write_or_rollback(usq)
 
-      # Split the trial-related metadata by Trial.
-      split_metadata = collections.defaultdict(list)
-      for md in trial_metadata:
-        split_metadata[md.trial_id].append(md)
-
       # Now, we update one Trial at a time:
       for trial_id, md_list in split_metadata.items():
-        t_resource = s_resource.trial_resource(trial_id)
-        trial_name = t_resource.name
+        trial_name = trial_names[trial_id]
 
         # Obtain original trial.
         otq = sqla.select(self._trials_table)
